@@ -14,7 +14,9 @@ TIERS = {
 RULE = ('case i: an array-heavy program (array literals whose elements contain allocating calls, dynamic '
         'arrays with argv lengths, arrays passed down recursion, bool arrays over several bytes, library '
         'routines called from the deepest frame - also "lean" functions whose deepest call is write(int) next '
-        'to a live stack array - compound element assignment; every 4th case a time-travel '
+        'to a live stack array, and "frame shape" functions built from a seeded sequence of deep calls, array '
+        'literals, dynamic arrays, byte/word locals and nested blocks that are all read back at the end - '
+        'compound element assignment; every 4th case a time-travel '
         'program; every 5th case with a planted index/division fault) is first run with a generous stack; '
         'then the stack-size axis is ENUMERATED: every size 0..N+2 words where N is the first size that '
         'completes (N <= 90; larger needs are bisected and the window N-6..N+2 plus seeded smaller sizes is '
@@ -95,6 +97,87 @@ def global_index_prog(rnd, W):
     return prog(glob, [dump_func(el), jump, func('empty', '@is_you', [], *body)]), []
 
 
+def frame_shape_prog(rnd, W):
+    """One function whose frame is shaped by a seeded sequence of events - deep calls, array
+    literals, dynamic arrays, byte and word locals, nested blocks - all still live at the end,
+    where everything is read back.  Guard accounting errors show up when the enumerated stack
+    size hits the window between the stale and the correct requirement."""
+    n_ev = rnd.randrange(3, 8)
+    names = []
+    cnt = [0]
+
+    def nm(p):
+        cnt[0] += 1
+        return f'{p}{cnt[0]}'
+
+    def events(k, depth):
+        out = []
+        for _ in range(k):
+            c = rnd.randrange(9)
+            if c == 0:
+                out += [rnd.choice((writeln(V('n')), write(bin_('>', V('n'), I(0))), ex(call('h3', V('n'), V('n'), V('n'))),
+                                    write(I(-(1 << (8 * W - 1)))), ex(call('hb', is_(V('n'), 'byte'), bin_('>', V('n'), I(1))))))]
+            elif c == 1:
+                v = nm('l')
+                el = rnd.choice(('int', 'byte', 'bool'))
+                ln_ = rnd.randrange(1, 5)
+                first = {'int': V('n'), 'byte': is_(V('n'), 'byte'), 'bool': bin_('>', V('n'), I(0))}[el]
+                rest = {'int': lambda i: I(i + 2), 'byte': lambda i: I(66 + i), 'bool': lambda i: B(i % 2 == 0)}[el]
+                out += [decl(arr(el), v, ('arr', tuple([first] + [rest(i) for i in range(ln_ - 1)])), True)]
+                names.append((v, 'arr', el))
+            elif c == 2:
+                v = nm('d')
+                el = rnd.choice(('int', 'byte', 'bool'))
+                ln_ = rnd.choice((1, 2, 3, 4, 9))
+                f = nm('f')
+                fillv = {'int': bin_('+', V(f), I(40)), 'byte': is_(bin_('+', V(f), I(97)), 'byte'),
+                         'bool': bin_('==', bin_('%', V(f), I(2)), I(0))}[el]
+                out += [dyn(el, v, bin_('+', bin_('%', V('n'), I(1)), I(ln_))),
+                        for_up(f, I(0), ln(v), setv(idx(v, V(f)), fillv))]
+                names.append((v, 'arr', el))
+            elif c in (3, 4):
+                v = nm('c')
+                t = rnd.choice(('byte', 'bool'))
+                out += [decl(t, v, C(rnd.randrange(65, 91)) if t == 'byte' else bin_('>=', V('n'), I(0)))]
+                names.append((v, t, None))
+            elif c == 5:
+                v = nm('x')
+                out += [decl('int', v, bin_('+', V('n'), I(rnd.randrange(100))))]
+                names.append((v, 'int', None))
+            elif c == 6 and depth > 0:
+                mark = len(names)
+                inner = events(rnd.randrange(1, 4), depth - 1)
+                inner += readback(names[mark:])
+                del names[mark:]
+                out += [block(*inner)]
+            else:
+                out += [write(C('.'))]
+        return out
+
+    def readback(ns):
+        out = []
+        for v, kind, el in ns:
+            if kind == 'arr':
+                out += [ex(call('dump', V(v)))]
+            elif kind == 'byte':
+                out += [write(V(v))]
+            else:
+                out += [write(V(v)), write(C(' '))]
+        return out
+
+    body = events(n_ev, 2)
+    body += readback(names)
+    h3 = func('empty', 'h3', [('int', 'a'), ('int', 'b'), ('int', 'c')], write(bin_('+', V('a'), bin_('*', V('b'), V('c')))))
+    hb = func('empty', 'hb', [('byte', 'a'), ('bool', 'b')], write(V('a')), write(V('b')))
+    where = rnd.random()
+    if where < 0.5:
+        fs = [func('empty', '@is_you', [('int', 'n')], *body)]
+    else:
+        fs = [func('empty', 'shaped', [('int', 'n')], *body),
+              func('empty', '@is_you', [('int', 'n')], write(C('[')), ex(call('shaped', V('n'))), write(C(']')))]
+    return prog([], [dump_func('int'), dump_func('byte'), dump_func('bool'), h3, hb] + fs), [str(rnd.choice((0, 1, 7, -3)))]
+
+
 def make_case(seed, idx):
     rnd = case_rng(seed, ID, idx)
     W = rnd.choice((2, 2, 3, 4, 8))
@@ -110,6 +193,9 @@ def make_case(seed, idx):
         p, argv = lean_prog(rnd, W)
     elif idx % 7 == 2 and idx % 3 == 0:
         p, argv = global_index_prog(rnd, W)
+    elif idx % 7 in (1, 6):
+        p, argv = frame_shape_prog(rnd, W)
+        kind = 'frame'
     else:
         cfg = heavy_cfg(rnd)
         cfg['W'] = W
